@@ -45,7 +45,8 @@ def main():
                 res["files"] = subprocess.check_output(
                     ["git", "-C", wt, "diff", "--stat"]).decode().strip().splitlines()[:-1]
                 for p in (props or allp):
-                    env = dict(os.environ, HGXVERIF_REPO=wt, PYTHONHASHSEED="0", VERIF_SEED="1")
+                    env = dict(os.environ, HGXVERIF_REPO=wt, PYTHONHASHSEED="0", VERIF_SEED="1",
+                       HGXVERIF_EVIDENCE_DIR="/var/tmp/hgxverif_scratch_evidence")
                     t0 = time.time()
                     rc, out = sh(["/venv/bin/python", "-m", "hgxverif.run", p, "--tier", "quick"],
                                  cwd=V, env=env)
